@@ -34,9 +34,9 @@ def run(ctx):
     for u in bound_ok:
         count[u['type']] = count.get(u['type'], 0) + 1
     thorough = ctx.tier == 'thorough'
-    jobs = [{'name': 'c01_' + t['name'] + ('_all' if thorough else ''), 'src': src, 'opt': '-O1',
-             'flags': ['-DVF_HDR=%s' % t['hdr'], '-DVF_E=%s' % t['cpp'], '-DVF_ENAME="%s"' % t['name']] +
-                      (['-DVF_STATIC_ALL=1'] if thorough else [])} for t in ts]
+    # the compile-time path is instantiated for ALL ordered pairs in both tiers (one thin thunk per pair)
+    jobs = [{'name': 'c01_' + t['name'] + '_all', 'src': src, 'opt': '-O1',
+             'flags': ['-DVF_HDR=%s' % t['hdr'], '-DVF_E=%s' % t['cpp'], '-DVF_ENAME="%s"' % t['name'], '-DVF_STATIC_ALL=1']} for t in ts]
     bins = ctx.build_all(jobs)
     runs = []
     for t, (b, err) in zip(ts, bins):
@@ -67,7 +67,7 @@ def run(ctx):
             'signs, cancellation neighbourhoods for temperatures), through PhQ::Convert; ConvertStatically for %s%s. Reference: '
             '(a_from*x + b_from - b_to)/a_to in __float128 with a, b from the unit symbols only. tolerance 8 ulp per hop. '
             'distinct_nontrivial = conversions between two different units') % (
-                'all ordered pairs' if thorough else 'every (unit, standard) and (standard, unit) pair',
+                'all ordered pairs',
                 '; additionally ALL 2^23 float mantissas x 2 signs x 3 binades through ConvertInPlace(std::vector<float>) for every ordered linear pair and all 2^32 float bit patterns for the affine temperature pairs' if thorough else '')
     return vf.finish(ctx, 'exploration', rule, h.stat('conversions'), h.stat('nontrivial_conversions'), True,
                      coverage={'configurations': npairs * 3})
